@@ -23,7 +23,8 @@ func main() {
 	out := flag.String("out", "", "worker output (internal)")
 	replay := flag.String("replay", "", "replay file")
 	oneexec := flag.String("oneexec", "", "run one execution of an inner phase body (internal)")
-	choices := flag.String("choices", "", "choice prefix for -oneexec")
+	choices := flag.String("choices", "", "choice prefix for -oneexec / -lone")
+	lone := flag.String("lone", "", "run one execution of this phase alone (internal)")
 	flag.Parse()
 	if *oneexec != "" {
 		var ch []int
@@ -34,6 +35,9 @@ func main() {
 			}
 		}
 		os.Exit(c19.RunOneExec(*oneexec, *tier, ch))
+	}
+	if *lone != "" {
+		os.Exit(engine.RunLoneExecution(*prop, *tier, *lone, *choices))
 	}
 	if *replay != "" {
 		os.Exit(engine.RunReplay(*replay))
